@@ -545,8 +545,25 @@ def run_type_assignment(
     for cell in result:
         for parent_level, child_level in zip(level_list[:-1], level_list[1:]):
             if cell[child_level]['avg_correlation'] is None:
+                if parent_level is None:
+                    # root has only one child; there is no level
+                    # above this one to inherit from (see below)
+                    continue
                 cell[child_level]['avg_correlation'] = \
                     cell[parent_level]['avg_correlation']
+
+        # Levels above the first real choice (i.e. the root and possibly
+        # its descendants have only one child) take the avg_correlation of
+        # the nearest level below them at which a choice was made. If no
+        # choice was made anywhere, the assignment is certain.
+        for child_level, parent_level in zip(hierarchy[-1:0:-1],
+                                             hierarchy[-2::-1]):
+            if cell[parent_level]['avg_correlation'] is None:
+                cell[parent_level]['avg_correlation'] = \
+                    cell[child_level]['avg_correlation']
+        for level in hierarchy:
+            if cell[level]['avg_correlation'] is None:
+                cell[level]['avg_correlation'] = 1.0
 
     # add aggregate_probability (the product of bootstrapping_probability)
     # across levels in the taxonomy
